@@ -75,5 +75,7 @@ func handlePanic() {
 		fmt.Println("Recovered from panic:")
 		fmt.Println(r)
 		debug.PrintStack()
+		// a panic means the output is missing or incomplete: do not report success
+		os.Exit(2)
 	}
 }
